@@ -256,10 +256,8 @@ class Session:
                 b.set(s.last, 1 if i == length - 1 else 0)
                 b.set(s.first, 1 if i == 0 else 0)
                 yield
-                guard = 0
                 while not b.get(s.ready):
                     yield
-                    guard += 1
                 pos += 1
                 b.set(s.valid, 0)
                 b.set(s.last, 0)
